@@ -6,6 +6,7 @@ import procoracle as po
 
 FAMILIES = ['process', 'component']
 BRIDGES = ['br_proc_', 'br_nonideal_', 'br_hvap_', 'br_cp', 'br_cool']
+LINT = True          # loop-shape lint of the four step loops (tracer/looplint.py)
 PROPS_V = 'Props/C03.v'
 EXTRA_TARGETS = ['Model/NumCheck.vo']
 BUDGET = {'quick': 150, 'thorough': 4000}
